@@ -27,7 +27,7 @@ QuickRand ==
 ThoroughFamilies ==
     {F("query", "gen", 0, FALSE, 6),
      F("args", "gen", 1, FALSE, 5), F("args", "gen", 3, FALSE, 4), F("args", "gen", 5, FALSE, 3),
-     F("uri", "gen", 3, TRUE, 3), F("uri", "gen", 3, FALSE, 4),
+     F("uri", "gen", 3, TRUE, 2), F("uri", "gen", 3, FALSE, 4),
      F("cookie", "cookie", 1, TRUE, 2), F("cookie", "cookie", 1, FALSE, 5),
      F("query", "pct", 0, FALSE, 5), F("args", "pct", 1, FALSE, 4), F("uri", "pct", 3, FALSE, 4)}
 ThoroughRand ==
@@ -42,7 +42,7 @@ Random == SetToSeq(UNION {{[mode |-> f.mode, tab |-> f.tab, nc |-> f.nc, n |-> 0
                             count |-> f.count, maxlen |-> f.maxlen, k |-> k] : k \in 1 .. f.blocks} : f \in RandFamilies})
 
 TablesRec == [kind |-> "tables",
-              tables |-> [tabs |-> [gen |-> Tok, cookie |-> CTok, byte |-> ByteTok, pct |-> PTok], hosts |-> Hosts, schemes |-> Schemes, expiries |-> Expiries,
+              tables |-> [tabs |-> [gen |-> Tok, cookie |-> CTok, byte |-> ByteTok, pct |-> PTok], hosts |-> Hosts, parsehost |-> ParseHost, schemes |-> Schemes, expiries |-> Expiries,
                           maxages |-> MaxAges, domains |-> Domains, cpaths |-> CPaths]]
 Rec(b, id) == [kind |-> "block", id |-> id, mode |-> b.mode, tab |-> b.tab, nc |-> b.nc, n |-> b.n, p |-> b.p, cross |-> b.cross,
                rand |-> b.rand, count |-> b.count, maxlen |-> b.maxlen]
